@@ -214,3 +214,149 @@ def gen_fault(r, kinds=None, schema_names=None):
     if k == "illegal-complex":
         return {"kind": k, "inst": big, "names": r.sample(names, min(len(names), r.randint(1, 5))), "args": r.choice(["", "1", "$", "'x',2"])}
     raise ValueError(k)
+
+
+# ---------------------------------------------------------------------------
+# EXPRESS files (C06): the same fault kinds over an EXPRESS-flavoured lenient tokeniser
+# ---------------------------------------------------------------------------
+_ETOK = re.compile(r"""
+    (?P<ws>[ \t\r\n]+)
+  | (?P<comment>\(\*.*?\*\))
+  | (?P<tail>--[^\n]*)
+  | (?P<string>'(?:[^'\n]|'')*')
+  | (?P<number>[0-9]+(?:\.[0-9]*)?(?:[eE][+-]?[0-9]+)?)
+  | (?P<keyword>[A-Za-z_][A-Za-z0-9_]*)
+  | (?P<punct><=|>=|<>|:=|:=:|:<>:|\*\*|\|\||<\*|[()\[\]{};:,.=<>+\-*/\\|?])
+  | (?P<other>.)
+""", re.X | re.S)
+
+
+def express_tokens(text):
+    out = []
+    for m in _ETOK.finditer(text):
+        k = m.lastgroup
+        if k != "ws":
+            out.append((m.start(), m.end(), k))
+    return out
+
+
+def apply_express_fault(text, f):
+    kind = f["kind"]
+    n = len(text)
+    if kind in ("truncate", "flip", "nul", "hibit", "setbyte", "insert"):
+        t, ok, w = apply_fault(text, f)
+        return t, ok, kind
+    toks = express_tokens(text)
+    if not toks:
+        return text, False, "no-tokens"
+    if kind in ("tok-del", "tok-dup", "tok-swap"):
+        if len(toks) < 2:
+            return text, False, "no-tokens"
+        k = f["tok"] % (len(toks) - 1)
+        s, e, tk = toks[k]
+        if kind == "tok-del":
+            return text[:s] + text[e:], True, tk
+        if kind == "tok-dup":
+            return text[:e] + " " + text[s:e] + text[e:], True, tk
+        s2, e2, tk2 = toks[k + 1]
+        return text[:s] + text[s2:e2] + text[e:s2] + text[s:e] + text[e2:], text[s:e] != text[s2:e2], tk + "~" + tk2
+    if kind == "stretch":
+        cls = f.get("cls", "keyword")
+        L = int(f.get("len", 10000))
+        if cls in ("comment", "tail"):
+            s, e, tk = toks[f["tok"] % len(toks)]
+            ins = ("(*" + "c" * L + "*)") if cls == "comment" else ("--" + "t" * L + "\n")
+            return text[:e] + " " + ins + text[e:], True, cls
+        cands = [t for t in toks if t[2] == cls]
+        if not cands:
+            return text, False, "no-" + cls
+        s, e, tk = cands[f["tok"] % len(cands)]
+        old = text[s:e]
+        if cls == "keyword":
+            new = old + "x" * L
+        elif cls == "number":
+            new = old + "7" * L
+        else:
+            new = "'" + "s" * L + "'"
+        return text[:s] + new + text[e:], True, cls
+    if kind == "nest":
+        d = int(f.get("depth", 100))
+        what = f.get("what", "paren")
+        if what == "comment":
+            s, e, tk = toks[f["tok"] % len(toks)]
+            return text[:e] + " " + "(*" * d + " x " + "*)" * d + " " + text[e:], True, "nested-comment"
+        vals = [t for t in toks if t[2] == "number"]
+        if not vals:
+            return text, False, "no-number"
+        s, e, tk = vals[f["tok"] % len(vals)]
+        if f.get("unbalanced"):
+            return text[:s] + "(" * d + text[s:], True, "open-paren"
+        return text[:s] + "(" * d + text[s:e] + ")" * d + text[e:], True, "wrap-paren"
+    if kind == "nonascii":
+        s, e, tk = toks[f["tok"] % len(toks)]
+        return text[:s] + f.get("bytes", "\xe9\xff") + text[s:], True, "before-" + tk
+    if kind == "no-final-newline":
+        t = text.rstrip("\n")
+        return t, t != text, "eof"
+    raise ValueError(kind)
+
+
+def apply_all_express(text, faults):
+    fired = {}
+    where = []
+    for f in faults:
+        text, ok, w = apply_express_fault(text, f)
+        if ok:
+            fired[f["kind"]] = fired.get(f["kind"], 0) + 1
+            where.append("%s@%s" % (f["kind"], w))
+    return text, fired, where
+
+
+def gen_express_fault(r):
+    k = r.choice(["truncate", "flip", "nul", "hibit", "tok-del", "tok-del", "tok-dup", "tok-swap", "tok-swap", "stretch", "stretch", "nest", "nonascii", "no-final-newline"])
+    big = r.randint(0, 10 ** 9)
+    if k == "truncate":
+        return {"kind": k, "at": big}
+    if k == "flip":
+        return {"kind": k, "at": big, "mask": r.choice([1, 2, 4, 8, 16, 32, 64, 128, 255])}
+    if k in ("nul", "hibit"):
+        return {"kind": k, "at": big}
+    if k in ("tok-del", "tok-dup", "tok-swap"):
+        return {"kind": k, "tok": big}
+    if k == "stretch":
+        return {"kind": k, "tok": big, "cls": r.choice(["keyword", "number", "string", "comment", "tail"]), "len": r.choice([300, 1000, 10000, 50000, 100000])}
+    if k == "nest":
+        return {"kind": k, "tok": big, "what": r.choice(["paren", "comment"]), "depth": r.choice([5, 30, 100, 1000]), "unbalanced": r.random() < 0.3}
+    if k == "nonascii":
+        return {"kind": k, "tok": big, "bytes": r.choice(["\xe9", "\xff\xfe", "\x80", "\x01", "\x7f"])}
+    return {"kind": k}
+
+
+def pathological_schema(r):
+    """synthetic lexical stress: -> (name, text, label)"""
+    c = r.choice(["deep-scopes", "deep-if", "deep-expr", "long-remark", "long-string", "long-identifier", "many-entities", "deep-select", "deep-subtype"])
+    n = r.choice([21, 30, 100])
+    if c == "deep-scopes":
+        body = "".join("FUNCTION f%d : INTEGER;\n" % k for k in range(n)) + "RETURN (1);\n" + "".join("END_FUNCTION;\nRETURN (1);\n" for _ in range(n - 1)) + "END_FUNCTION;\n"
+        text = "SCHEMA patho;\n" + body + "END_SCHEMA;\n"
+    elif c == "deep-if":
+        text = "SCHEMA patho;\nFUNCTION f : INTEGER;\n" + "IF TRUE THEN\n" * n + "RETURN (1);\n" + "END_IF;\n" * n + "RETURN (0);\nEND_FUNCTION;\nEND_SCHEMA;\n"
+    elif c == "deep-expr":
+        text = "SCHEMA patho;\nCONSTANT c : INTEGER := " + "(" * n + "1" + ")" * n + ";\nEND_CONSTANT;\nEND_SCHEMA;\n"
+    elif c == "long-remark":
+        L = r.choice([300, 10000, 100000])
+        text = "SCHEMA patho;\n(*" + "r" * L + "*)\nENTITY e; a : INTEGER; -- " + "t" * L + "\nEND_ENTITY;\nEND_SCHEMA;\n"
+    elif c == "long-string":
+        L = r.choice([300, 10000, 100000])
+        text = "SCHEMA patho;\nCONSTANT c : STRING := '" + "s" * L + "';\nEND_CONSTANT;\nEND_SCHEMA;\n"
+    elif c == "long-identifier":
+        L = r.choice([300, 10000, 100000])
+        idn = "e" + "x" * L
+        text = "SCHEMA patho;\nENTITY %s; a : INTEGER;\nEND_ENTITY;\nTYPE t%s = INTEGER; END_TYPE;\nEND_SCHEMA;\n" % (idn, "y" * L)
+    elif c == "many-entities":
+        text = "SCHEMA patho;\n" + "".join("ENTITY e%d; a%d : INTEGER;\nEND_ENTITY;\n" % (k, k) for k in range(n * 10)) + "END_SCHEMA;\n"
+    elif c == "deep-select":
+        text = "SCHEMA patho;\nTYPE s0 = SELECT (e); END_TYPE;\n" + "".join("TYPE s%d = SELECT (s%d); END_TYPE;\n" % (k + 1, k) for k in range(n)) + "ENTITY e; a : s%d;\nEND_ENTITY;\nEND_SCHEMA;\n" % n
+    else:
+        text = "SCHEMA patho;\nENTITY e0; a : INTEGER;\nEND_ENTITY;\n" + "".join("ENTITY e%d SUBTYPE OF (e%d); b%d : INTEGER;\nEND_ENTITY;\n" % (k + 1, k, k) for k in range(n)) + "END_SCHEMA;\n"
+    return "patho", text, "%s-%d" % (c, n)
